@@ -64,9 +64,14 @@ func (s *synchronizer) sync(_ context.Context, res Response) (Response, bool, er
 	if res.Command == CommandCommit && res.End > s.cycle.res.End {
 		s.cycle.res.End = res.End
 	}
+	if res.Err != nil && s.cycle.res.Err == nil {
+		s.cycle.res.Err = res.Err
+	}
 	fulfilled := s.cycle.counter == s.nodeCount
 	if fulfilled {
 		s.cycle.counter = 0
 	}
-	return res, fulfilled, nil
+	// Forward the response merged over every node of the cycle, not the one that
+	// happened to arrive last.
+	return s.cycle.res, fulfilled, nil
 }
